@@ -7,7 +7,9 @@ package zzvv
 import (
 	"os"
 	"reflect"
+	"runtime"
 	"strings"
+	"sync"
 )
 
 type AssumeFailed struct{}
@@ -67,4 +69,80 @@ func IsNil(x any) bool {
 		return rv.IsNil()
 	}
 	return false
+}
+
+// Concurrently runs f once sequentially and then in two goroutines at the same time, and
+// requires the observation logs (Observe) of all three runs to be identical. The symbolic engine
+// runs f once (the write monitor covers interleavings by reduction, see DESIGN C19).
+func Concurrently(f func()) {
+	run := func() []int {
+		obsMu.Lock()
+		obs = nil
+		obsMu.Unlock()
+		f()
+		obsMu.Lock()
+		defer obsMu.Unlock()
+		return append([]int(nil), obs...)
+	}
+	seq := run()
+	var wg sync.WaitGroup
+	results := make([][]int, 2)
+	panics := make([]any, 2)
+	for g := 0; g < 2; g++ {
+		wg.Add(1)
+		go func(g int) {
+			defer wg.Done()
+			defer func() { panics[g] = recover() }()
+			var local []int
+			localObs.Store(goid(), &local)
+			defer localObs.Delete(goid())
+			f()
+			results[g] = local
+		}(g)
+	}
+	wg.Wait()
+	for _, p := range panics {
+		if p != nil {
+			panic(p)
+		}
+	}
+	for _, r := range results {
+		if len(r) != len(seq) {
+			panic(AssertFailed{"C19: concurrent run observed a different number of results"})
+		}
+		for i := range r {
+			if r[i] != seq[i] {
+				panic(AssertFailed{"C19: concurrent run returned a different result than the sequential run"})
+			}
+		}
+	}
+}
+
+var (
+	obsMu    sync.Mutex
+	obs      []int
+	localObs sync.Map
+)
+
+// Observe records a result of the current run.
+func Observe(x int) {
+	if p, ok := localObs.Load(goid()); ok {
+		l := p.(*[]int)
+		*l = append(*l, x)
+		return
+	}
+	obsMu.Lock()
+	obs = append(obs, x)
+	obsMu.Unlock()
+}
+
+func goid() uint64 {
+	var buf [64]byte
+	n := runtime.Stack(buf[:], false)
+	// "goroutine 123 [running]:..."
+	var id uint64
+	for i := len("goroutine "); i < n && buf[i] >= '0' && buf[i] <= '9'; i++ {
+		id = id*10 + uint64(buf[i]-'0')
+	}
+	return id
 }
